@@ -54,6 +54,11 @@ def sweep(ctx, n):
             if cls == "Cuboid" and m > 1 and rng.random() < 0.5:
                 pos[1:] = pos[0]  # rotating in place: same position, different orientation at every path index
                 kinds["rotating-in-place"] = kinds.get("rotating-in-place", 0) + 1
+            if cls in ("Cuboid", "Cylinder", "Polyline") and m > 1 and rng.random() < 0.4:
+                # a wiper path: orientations +a, -a, +a ... about one coordinate axis (their quaternions differ only in signs)
+                a_, ax_ = nps.uniform(0.3, 1.2), np.eye(3)[rng.randrange(3)]
+                ori = R.from_rotvec([ax_ * a_ * (-1) ** j for j in range(m)])
+                kinds["mirrored-orientations"] = kinds.get("mirrored-orientations", 0) + 1
             if cls == "Cuboid":
                 kw = dict(dimension=nps.uniform(0.5, 2, 3), polarization=(0, 0, 1))
                 obj = magpy.magnet.Cuboid(**kw)
